@@ -86,15 +86,15 @@ Definition witness_refutes (s : site) : bool :=
   | None => true
   | Some (x, ac, dec) =>
       existsb (fun r => match r with Exc e s' => negb (family e) && site_beq s s' | Val _ => false end)
-              (parse (unguarded_at [s]) live clean_any false dec x ac false None)
-      && negb (has_nonfamily (parse repaired live clean_any false dec x ac false None))
+              (parse (unguarded_at [s]) live clean_any true false dec x ac false None)
+      && negb (has_nonfamily (parse repaired live clean_any true false dec x ac false None))
   end.
 
 Lemma all_witnesses_refute : forallb witness_refutes all_sites = true.
 Proof. vm_compute. reflexivity. Qed.
 
 Lemma witness_refutes_sound : forall s x ac dec, witness s = Some (x, ac, dec) -> witness_refutes s = true ->
-  exists e, In (Exc e s) (parse (unguarded_at [s]) live clean_any false dec x ac false None) /\ family e = false.
+  exists e, In (Exc e s) (parse (unguarded_at [s]) live clean_any true false dec x ac false None) /\ family e = false.
 Proof.
   intros s x ac dec Hw H. unfold witness_refutes in H. rewrite Hw in H.
   apply andb_true_iff in H. destruct H as [H _]. apply existsb_exists in H.
@@ -105,7 +105,7 @@ Proof.
 Qed.
 
 Lemma site_refuted : forall s, s <> S_lib ->
-  exists x ac dec e, In (Exc e s) (parse (unguarded_at [s]) live clean_any false dec x ac false None) /\ family e = false.
+  exists x ac dec e, In (Exc e s) (parse (unguarded_at [s]) live clean_any true false dec x ac false None) /\ family e = false.
 Proof.
   intros s Hs.
   assert (Hall := all_witnesses_refute). rewrite forallb_forall in Hall.
